@@ -803,6 +803,71 @@ def corr_guards(ctx, vals, name):
     ctx.coq_cases(name + "_pure", HEADER, pure, shard=80, label="hash_pure_equals_impl_inside_guard")
 
 
+# ---- the shared table inside DeepDiff: _create_hashtable / _diff_set ------------
+
+MEMBER_ATOMS = [1, 1.0, True, 0, 0.0, False, 2, 2.0, 3, "a", "b", "", "int:1", "NONE", None, 1.5, -1, "1", b"a"]
+HEADER_MEMBERS = HEADER + "\nFrom DD Require Import Hash.HashMembers Hash.HashMembersShow."
+
+
+def gen_member_set(rng, frozen=False):
+    s = set()
+    for _ in range(rng.randint(0, 4)):
+        s.add(rng.choice(MEMBER_ATOMS))      # Python keeps the first of ==-equal members
+    return frozenset(s) if frozen else s
+
+
+def impl_diff_sets(pairs):
+    """what DeepDiff reports for the set pairs (one run, one shared hashes table): per pair [removed, added], each in the
+    iteration order of the set it comes from"""
+    from deepdiff import DeepDiff
+    if len(pairs) == 1:
+        t1, t2 = pairs[0]
+    else:
+        t1, t2 = [a for a, _ in pairs], [b for _, b in pairs]
+    dd = DeepDiff(t1, t2, view="tree", hasher=hexhasher)
+    unexpected = [k for k in dd if k not in ("set_item_removed", "set_item_added")]
+    rem = [set() for _ in pairs]
+    add = [set() for _ in pairs]
+    for key, acc, side in (("set_item_removed", rem, "t1"), ("set_item_added", add, "t2")):
+        for lvl in dd.get(key, []):
+            pth = lvl.up.path()
+            i = 0 if pth == "root" else int(pth[len("root["):-1])
+            acc[i].add(repr(values.canon(getattr(lvl, side))))
+    out = []
+    for i, (a, b) in enumerate(pairs):
+        out.append([[values.canon(x) for x in a if repr(values.canon(x)) in rem[i]],
+                    [values.canon(x) for x in b if repr(values.canon(x)) in add[i]]])
+    return out, unexpected
+
+
+def corr_members(ctx, n):
+    """DeepDiff's own use of the shared table (_create_hashtable per set, members hashed one by one on self.hashes):
+    which members _diff_set reports == diff_sets_memo (hash_members_memo threaded through the pairs of one run)"""
+    rng = ctx.rng
+    fixed = [[({1, 'a'}, {1.0, 'a'})], [({1.0, 'a'}, {1, 'b'})], [({1, 'a'}, {1, 'a'}), ({1.0}, {1})], [({1.0, 2}, {1.0}), ({1, 'a'}, {1.0, 'a'})],
+             [({'int:1', 2}, {1, 2})], [(frozenset({1, 'a'}), frozenset({1.0, 'b'}))], [({True}, {1})], [({0}, {False}), ({0.0}, {0})],
+             [({None}, {'NONE'})], [(set(), {1})], [({1.0}, {1}), ({1}, {1.0}), ({True, 2.0}, {1, 2})]]
+    chains = list(fixed)
+    for _ in range(n):
+        k = rng.choice([1, 1, 2, 3])
+        if k == 1 and rng.random() < 0.3:
+            chains.append([(gen_member_set(rng, True), gen_member_set(rng, True))])
+        else:
+            chains.append([(gen_member_set(rng), gen_member_set(rng)) for _ in range(k)])
+    cases = []
+    for pairs in chains:
+        if len(pairs) > 1 and any(a == b for a, b in pairs) and False:
+            continue
+        exp, unexpected = impl_diff_sets(pairs)
+        if unexpected:
+            ctx.count("members:skipped_other_report_kinds")
+            continue
+        ctx.count("members:alias" if values.contains_alias([list(a) + list(b) for a, b in pairs]) else "members:alias_free")
+        expr = "run_diff_sets %s [%s]" % (coq_opts(SET_MODE), "; ".join("(%s, %s)" % (values.to_coq(a), values.to_coq(b)) for a, b in pairs))
+        cases.append((expr, exp, {"pairs": [[repr(a), repr(b)] for a, b in pairs], "check": "_diff_set reports == diff_sets_memo"}))
+    ctx.coq_cases("hash_members", HEADER_MEMBERS, cases, shard=100, label="diff_set_members_shared_table")
+
+
 def classes_of(hs):
     first = {}
     out = []
@@ -920,10 +985,10 @@ def run(ctx):
             w, kind = values.edit(rng, v, alias=True, strings=STRS)
             if kind is not None:
                 pool.append(w)
-    pool = [v for v in pool if in_model_range(v)][:300]
+    pool = [v for v in pool if in_model_range(v)][:300 if ctx.thorough else 260]
     corr_pattern(ctx, pool, MODES3, "hash_pattern")
     # --- direct oracle on the implementation (default SHA-256 hasher)
-    ovals = vals + (make_values(rng, 900, 4) if ctx.thorough else make_values(rng, 110, 3))
+    ovals = vals + (make_values(rng, 900, 4) if ctx.thorough else make_values(rng, 90, 3))
     for v in ovals:
         for o in MODES3:
             oracle_value(ctx, v, o, rng)
@@ -935,6 +1000,7 @@ def run(ctx):
     for v in ovals[: len(ovals) // 2]:
         w = rebuild(v, rng, dict_order=True, set_order=True)
         oracle_shared(ctx, w, v, rng.choice(MODES3))
+    corr_members(ctx, 600 if ctx.thorough else 120)
     # --- repeated sub-objects (one object at several positions), long-lived tables, in-place edits
     sv = sharing_values(rng, 120 if ctx.thorough else 20)
     if not ctx.thorough:       # quick: every template once (cycling through the shared objects) + a seeded sample + the random ones
